@@ -530,7 +530,20 @@ def generate(r, tier):
                     cname = o["cls"]
             if cname is not None and core_has_ctor_body(scn, cname):
                 scn["shared_context"] = True
-                scn["actor2"] = [{"op": "new", "cls": cname, "obj": "ob"}] + [dict(o, obj="ob", pause=r.choice([0, 1, 2, 3])) for o in acalls if o["obj"] == first["obj"]][:4]
+                # staggered waits so that the calls of the two tasks end in non-LIFO order, and the first task still has
+                # operations left after the second one has finished
+                tail = [o for o in ops if o.get("obj") == first["obj"] and o["op"] in ("call", "get", "acall")][:3]
+                scn["ops"] = [o for o in ops if o["op"] == "new" and o["obj"] == first["obj"]] + [
+                    dict(first, pause=r.choice([1, 2])),
+                    {"op": "idle", "obj": first["obj"], "d": r.choice([1, 2, 3])},  # waits outside any call while the other task finishes
+                ] + [dict(o, pause=0) if o["op"] == "acall" else o for o in tail] + [dict(first, pause=r.choice([3, 4]))]
+                for o in scn["ops"]:
+                    o.pop("raise", None)
+                    o.pop("nested", None)
+                scn["actor2"] = [{"op": "new", "cls": cname, "obj": "ob"}, dict(first, obj="ob", pause=r.choice([2, 3])), dict(first, obj="ob", pause=1)]
+                for o in scn["actor2"]:
+                    o.pop("raise", None)
+                    o.pop("nested", None)
     return scn
 
 
@@ -698,6 +711,9 @@ def _execute(scn):
     async def actor(name, tag, oplist):
         run.enter_actor(name)
         for i, op in enumerate(oplist):
+            if op["op"] == "idle":
+                await asyncio.sleep(op["d"])
+                continue
             if op["op"] == "acall":
                 if op["obj"] in run.world.objects:
                     await run.acall(_ticket(scn, op, i, tag))
